@@ -2,13 +2,26 @@
 (* Batch validation of recorded runs of the real AnnotateResidues.run_system ("seq" events) and
    convert_dssp_to_martini ("helix" events).
    seq event   : [kind, system : Seq([sel, nres]), n, err : BOOLEAN, ann : Seq(Seq(Int))]   (0 = attribute absent)
-   helix event : [kind, in : Seq(char), out : Seq(char)]                                             *)
+   helix event : [kind, in : Seq(char), out : Seq(char)]
+   file event  : [kind, lines : Seq(Seq(char)), err : BOOLEAN, out : Seq(char)]        one run of the real read_dssp2
+   dssp event  : one run of the real AnnotateDSSP + AnnotateMartiniSecondaryStructures (library or `martinize2 -dssp <exe>`)
+                 with a scripted DSSP executable:
+                 [kind, mols : Seq([protein, haspos, nres, natoms]), plan : Seq([status, lines]),  what the executable answers
+                  err, ncalls, seen : Seq([natoms, nres]) (the PDB files the executable was given),
+                  aa, cg : Seq(Seq(char))  per molecule per residue aasecstruct / cgsecstruct ("-" absent, "?" not uniform),
+                  hasbeads, beads : cgsecstruct of the coarse-grained beads per molecule per residue,
+                  hdr : the secondary-structure line of the ITP header, <<"-">> when martinize2 wrote none,
+                  saved : Seq(Seq(Seq(char))) the DSSP outputs martinize2 saved (-dssp writes chain_X.ssd), <<>> if none]
+   cli event   : one run of `martinize2 -ss <seq>` / `-collagen`:
+                 [kind, mode : "ss" | "collagen", system : Seq([sel, nres]), seq : Seq(char), err, aa, cg, beads, hdr]    *)
 EXTENDS Integers, Sequences, FiniteSets, TLC, Json, IOUtils
 
 Batch == JsonDeserialize(IOEnv.TRACE_FILE)
 
 A == INSTANCE AnnotateSeq WITH MaxMols <- 0, MaxRes <- 0, MaxSeqExtra <- 0, system <- <<>>, n <- 0, out <- <<>>
 H == INSTANCE HelixRewrite WITH Alphabet <- {}, MaxLen <- 0, str <- <<>>, out <- <<>>
+
+R == INSTANCE DsspRoute WITH MaxMols <- 0, MaxRes <- 0, Shapes <- {}, mols <- <<>>, shapes <- <<>>, out <- <<>>
 
 VARIABLES tid, verdict
 vars == <<tid, verdict>>
@@ -31,9 +44,65 @@ JudgeHelix(e) ==
      ELSE IF \E i \in DOMAIN e.in : ~H!IsH(e.in, i) /\ e.out[i] # d[i] THEN "non-helix-class-not-by-table"
      ELSE "helix-run-rule-violated"
 
+JudgeFile(e) ==
+  IF R!Unspecified(e.lines) THEN "unspecified-input-generated"
+  ELSE LET d == R!ReadDecl(e.lines)
+       IN IF R!ReadOp(e.lines) # d THEN "operational-differs-from-declarative"
+          ELSE IF d.err # e.err THEN (IF d.err THEN "malformed-output-accepted" ELSE "wellformed-output-rejected")
+          ELSE IF d.err THEN "ok"
+          ELSE IF Len(d.val) # Len(e.out) THEN "residue-count-differs"
+          ELSE IF d.val # e.out THEN "class-differs" ELSE "ok"
+
+Untouched(s) == \A r \in DOMAIN s : s[r] = "-"
+HeaderOk(hdr, aa, sel) ==      \* judged only when martinize2 wrote the line: classes of the selected molecules in system order
+  hdr = <<"-">> \/ hdr = R!Flat(SelectSeq([i \in DOMAIN aa |-> IF sel[i] THEN aa[i] ELSE <<>>], LAMBDA s : TRUE))
+
+JudgeDssp(e) ==
+  IF R!UnspecifiedRoute(e.mols, e.plan) THEN "unspecified-input-generated"
+  ELSE LET x == R!Route(e.mols, e.plan)
+           C == R!Callers(e.mols)
+       IN IF (x.errAt # 0) # e.err THEN (IF e.err THEN "usable-dssp-output-rejected" ELSE "unusable-dssp-output-not-rejected")
+          ELSE IF \E i \in DOMAIN e.mols : ~R!IsCaller(e.mols[i]) /\ ~(Untouched(e.aa[i]) /\ Untouched(e.cg[i])) THEN "unselected-molecule-touched"
+          ELSE IF x.errAt # 0
+               THEN (IF ~Untouched(e.aa[x.errAt]) THEN "error-but-annotated"
+                     ELSE IF \E i \in DOMAIN e.mols : ~Untouched(e.aa[i]) /\ e.aa[i] # x.aa[i] THEN "class-on-wrong-residue"
+                     ELSE "ok")
+          ELSE IF e.ncalls # Len(C) THEN "dssp-not-run-once-per-protein"
+          ELSE IF \E j \in DOMAIN C : e.seen[j] # [natoms |-> e.mols[C[j]].natoms, nres |-> e.mols[C[j]].nres] THEN "dssp-input-is-not-the-molecule"
+          ELSE IF e.aa # x.aa THEN "class-on-wrong-residue"
+          ELSE IF e.cg # x.cg THEN "martini-translation-differs"
+          ELSE IF e.hasbeads /\ e.beads # x.cg THEN "beads-carry-other-classes"
+          ELSE IF ~HeaderOk(e.hdr, x.aa, [i \in DOMAIN e.mols |-> e.mols[i].protein]) THEN "header-differs"
+          ELSE IF e.saved # <<>> /\ e.saved # [j \in DOMAIN C |-> e.plan[j].lines] THEN "saved-dssp-output-differs"
+          ELSE "ok"
+
+JudgeCli(e) ==
+  LET d   == A!AnnotateDecl(e.system, Len(e.seq))
+      n   == [i \in DOMAIN e.system |-> e.system[i].nres]
+      aa  == [i \in DOMAIN e.system |-> [r \in 1..n[i] |-> IF d.val[i][r] = 0 THEN "-" ELSE e.seq[d.val[i][r]]]]
+      cg  == [i \in DOMAIN e.system |-> IF e.system[i].sel THEN H!ConvertRuns(aa[i]) ELSE aa[i]]
+      sel == [i \in DOMAIN e.system |-> e.system[i].sel]
+  IN IF A!AnnotateOp(e.system, Len(e.seq)) # d THEN "operational-differs-from-declarative"
+     ELSE IF d.err # e.err THEN (IF d.err THEN "mismatch-not-rejected" ELSE "valid-sequence-rejected")
+     ELSE IF d.err THEN "ok"
+     ELSE IF e.mode = "ss"
+          THEN (IF e.aa # aa THEN (IF \E i \in DOMAIN e.system : ~sel[i] /\ e.aa[i] # aa[i] THEN "unselected-molecule-touched" ELSE "element-on-wrong-residue")
+                ELSE IF e.cg # cg THEN "martini-translation-differs"
+                ELSE IF e.beads # cg THEN "beads-carry-other-classes"
+                ELSE IF ~HeaderOk(e.hdr, aa, sel) THEN "header-differs" ELSE "ok")
+     ELSE (IF \E i \in DOMAIN e.system : ~Untouched(e.aa[i]) THEN "collagen-sets-dssp-classes"        \* -collagen: class F straight onto cgsecstruct
+           ELSE IF e.cg # aa THEN (IF \E i \in DOMAIN e.system : ~sel[i] /\ e.cg[i] # aa[i] THEN "unselected-molecule-touched" ELSE "element-on-wrong-residue")
+           ELSE IF e.beads # aa THEN "beads-carry-other-classes" ELSE "ok")
+
+Judge(e) == CASE e.kind = "seq" -> JudgeSeq(e)
+              [] e.kind = "helix" -> JudgeHelix(e)
+              [] e.kind = "file" -> JudgeFile(e)
+              [] e.kind = "dssp" -> JudgeDssp(e)
+              [] e.kind = "cli" -> JudgeCli(e)
+
 Init == tid \in 1..Len(Batch) /\ verdict = "pending"
 Eval == /\ verdict = "pending"
-        /\ verdict' = IF Batch[tid].kind = "seq" THEN JudgeSeq(Batch[tid]) ELSE JudgeHelix(Batch[tid])
+        /\ verdict' = Judge(Batch[tid])
         /\ UNCHANGED tid
 Spec == Init /\ [][Eval]_vars
 =============================================================================
